@@ -386,10 +386,10 @@ class Run(object):
         a = rec.get("args", {})
         thr = a.get("threshold", 0)
         mr = a.get("max_rank")
-        if isinstance(mr, list):
-            return "skip"
         before = self.snap
         d = self.t.order
+        if isinstance(mr, list) and (op != "tt_from_cores" or len(mr) != d + 1):
+            return "skip"     # the array branch takes an int only; TT(cores, max_rank=list) hands the list to ortho()
         if before.meta[3][0] != 1 or before.meta[3][-1] != 1:
             return "skip"
         if thr != 0 and self._numerically_zero():
@@ -831,6 +831,9 @@ def _choose(rnd, run, cfg, prop):
             a["max_rank"] = rnd.randint(1, 3)
         if op == "tt_from_array" and rnd.random() < 0.2:
             a["order"] = "F"
+        if op == "tt_from_cores" and rnd.random() < 0.35:
+            a.pop("threshold", None)
+            a["max_rank"] = [1] + [rnd.choice((1, 2, 3, 4, None)) for _ in range(d - 1)] + [1]   # per-bond caps through the constructor
         rec = {"op": op, "args": a}
     elif g == "helper":
         if d < 2:
